@@ -54,6 +54,7 @@ func runC20(c *core.Ctx) *core.Outcome {
 	cfg.SetSession = t.Chance(1, 2)
 	cfg.CacheSize = 0
 	cfg.First = t.Chance(1, 3)
+	cfg.ResetOnEmpty = t.Chance(1, 4) // only exercised while the session is blocked: the model does not know the option
 	if cfg.OutputSize > 0 && cfg.OutputSize < 60 {
 		cfg.OutputSize = 0
 	}
@@ -77,8 +78,17 @@ func runC20(c *core.Ctx) *core.Outcome {
 		}
 		clear := t.Chance(1, 6)
 		tplFault := t.Chance(1, 8)
+		emptyIn := t.Chance(1, 3)
 		t.End()
 		wasEnded, wasBlocked := r.m.Ended, r.m.Blocked
+		if cfg.ResetOnEmpty && i > 0 {
+			if wasBlocked && emptyIn {
+				in = []byte{} // an empty input must not be a way out of a blocked session
+				o.Probes["empty_input_on_blocked_session_with_reset_on_empty"]++
+			} else if len(in) == 0 {
+				in = []byte("0")
+			}
+		}
 		flagsBefore := r.m.UserFlags()
 		if wasBlocked && blockedSeen >= 2 && clear {
 			// client code clears TERMINATE in the stored session; nothing is asserted afterwards
